@@ -1,0 +1,16 @@
+//go:build !verif
+
+package linter
+
+import (
+	"go/ast"
+	"go/types"
+)
+
+// No-op counterparts of the hooks in verif_on.go.
+
+func verifNew(*Checker, error)                 {}
+func verifSetPkg(*Context, *types.Package)     {}
+func verifSetFile(*Context, string, *ast.File) {}
+func verifCheckBegin(*Checker, *ast.File)      {}
+func verifCheckEnd(*Checker, *ast.File)        {}
